@@ -32,6 +32,33 @@ PROPS = {
     trusted_base=JSON_TB,
     assumptions=['GetPrincipals: a nil result and an empty result are identified'],
  ),
+ 'C14': dict(
+    group='codec', only=['param', 'msg.dec'], ops=['param.new', 'msg.dec'],
+    modules=['Ysshra.Props.C14', 'Ysshra.Props.C15'],
+    theorem_files=['Props/C14.lean'],
+    anchors=['csr/', 'message/', 'sshutils/version', 'common/'],
+    n=dict(quick=1500, thorough=60000),
+    trivial=lambda c: (c['model'] or ['?'])[0] == 'err' and c['op'] == 'param.new' and c['args'][0] == '!' and False,
+    rule='param.new: original-command texts (JSON objects complete / incomplete / retyped, other JSON values incl. null, legacy k=v texts, '
+         'encoder outputs, empty, random bytes) x LOGNAME x SSH_CONNECTION families x argument vectors of 0..8 arguments with embedded spaces; '
+         'half of the cases use a fully valid environment so the message decoder decides. Non-trivial = every case (each reaches at least the message decoder); distinct = distinct argument fields.',
+    trusted_base=JSON_TB + ['net.ParseIP is an oracle (its verdict on the first field travels on the case line)', 'crypto/rand: the transaction id is checked for shape and distinctness only'],
+    assumptions=['message.Unmarshal as repaired by the fix for finding F1'],
+ ),
+ 'C15': dict(
+    group='codec', only=['msg'], ops=['msg.enc', 'msg.dec'],
+    modules=['Ysshra.Props.C15'],
+    theorem_files=['Props/C15.lean'],
+    anchors=['message/'],
+    n=dict(quick=2500, thorough=100000),
+    trivial=lambda c: False,
+    rule='msg.enc: attribute sets over all boolean combinations, interface versions {0,5,6,7,8,-1,100}, algorithm numbers, touchless-sudo absent/partial/full, '
+         'nested extension maps (integer numbers), strings with spaces, @, =, non-ASCII; each output is decoded again. msg.dec: legacy texts (repeated keys, empty values, '
+         '= inside values, stray and Unicode spaces), JSON texts (null, other values, duplicates, retyped members, case-folded names), damaged encoder outputs, random bytes. '
+         'Every case is non-trivial; distinct = distinct argument fields.',
+    trusted_base=JSON_TB,
+    assumptions=['extension-map numbers are compared by kind only (float formatting is Go-to-Go)', 'message.Unmarshal as repaired by the fix for finding F1'],
+ ),
 }
 
 NOT_APPLICABLE = {}
@@ -53,4 +80,18 @@ MANIFEST_TEXT = {
     design_ref='DESIGN.md §7 C19',
     note=_NOTE + 'KeyID decoding as in C05.',
     technique='Lean 4 proof over the translated switch cascade, exhaustive correspondence on the attribute grid'),
+ 'C14': dict(
+    text='Lean theorems for every original-command token tree / byte string, LOGNAME, SSH_CONNECTION and argument vector: NewReqParam never crashes, and a success returns the '
+         'server-side login name, the valid first field of the connection string, a policy in {NONS,NSOK} taken from the second-last of 3..6 tokens, the declared major.minor '
+         '(0.0 when a legacy message omits it), a 10-hex-digit transaction id, and the client claims only in their own fields. Tied by differential runs against csr.NewReqParam.',
+    design_ref='DESIGN.md §7 C14',
+    note=_NOTE + 'net.ParseIP and crypto/rand are oracles; JSON lexer as in C05.',
+    technique='Lean 4 proof (decision logic / totality) + model/implementation correspondence'),
+ 'C15': dict(
+    text='Lean theorems: Marshal refuses exactly the attribute sets with an empty required field; JSON format: Unmarshal(Marshal a) = populate a for every attribute set with machine integers '
+         'and a duplicate-free extension map (all omitempty combinations); a text that decodes as a JSON attribute object is decided by the JSON branch alone; no crash. '
+         'The legacy round trip is checked by the specification predicate on the implementation (theorem pending). Differential runs against message.Marshal/Unmarshal.',
+    design_ref='DESIGN.md §7 C15',
+    note=_NOTE + 'JSON lexer as in C05; float formatting of extension values is not modelled.',
+    technique='Lean 4 proof (round-trip) + model/implementation correspondence'),
 }
